@@ -216,15 +216,25 @@ def meas_circuits(job):
     -> list of `meas` trace records (one per delivered circuit)."""
     lib = L()
     N, m, lst, conn = job["N"], job["m"], job["list"], job["conn"]
-    prep = impl.circuit_from_gates(N, job["prep"])
+    if job.get("registers"):
+        # the documented alternative form: the preparation circuit has several quantum registers and the qubits to measure are given as Qubit objects
+        from qiskit import QuantumCircuit, QuantumRegister
+        k = job["registers"]
+        prep = QuantumCircuit(QuantumRegister(k, "anc"), QuantumRegister(N - k, "data"))
+        for name, a, b in job["prep"]:
+            getattr(prep, "id" if name in ("i", "id") else name)(*([a] if b < 0 else [a, b]))
+        arg_list = [prep.qubits[q] for q in lst] if lst is not None else None
+    else:
+        prep = impl.circuit_from_gates(N, job["prep"])
+        arg_list = lst
     before = impl.gates_of(prep)
     out = []
     try:
         if job["what"] == "tomo":
-            circs = lib.tomography.full_state_tomography_circuits(prep, conn, lst)
+            circs = lib.tomography.full_state_tomography_circuits(prep, conn, arg_list)
         else:
             st = stab_from_codes(m, job["codes"], "matrices")
-            circs = [lib.tomography.stabilizer_measurement_circuit(prep, st, conn, lst)]
+            circs = [lib.tomography.stabilizer_measurement_circuit(prep, st, conn, arg_list)]
     except Exception as e:
         return [{"kind": "meas", "exc": exc_name(e) + ": " + str(e)[:200], "job": job}]
     unchanged = 1 if impl.gates_of(prep) == before else 0
